@@ -731,6 +731,17 @@ class Prover:
             if s is not None:
                 return s
             return ({t: 1}, 0)
+        if k == "payload" and t[1] in ("Some", "?"):
+            # the value inside Some(..) of a.checked_sub(b) / a.checked_add(b) is exactly a - b / a + b
+            c = canon(t[2])
+            if c[0] == "call" and isinstance(c[1], str) and re.search(r"^core::num::.*::checked_(sub|add)$", c[1]) and len(c[2]) == 2:
+                a = self.lin(c[2][0], depth + 1)
+                b = self.lin(c[2][1], depth + 1)
+                sgn = 1 if c[1].endswith("add") else -1
+                d = dict(a[0])
+                for x, co in b[0].items():
+                    d[x] = d.get(x, 0) + sgn * co
+                return ({x: co for x, co in d.items() if co}, a[1] + sgn * b[1])
         if k == "call":
             so = self.ranger.size_of(t)
             if so is not None:
